@@ -32,14 +32,14 @@ def pinned_selftests(ctx, base_cfg, fixes):
 
 
 def select_scripts(allitems, every, offset):
-    """deterministic thinning of the model's complete histories: every `every`-th of each stratum (device, methods called), ranked by
+    """deterministic thinning of the model's complete histories: every `every`-th of each stratum (device, first two methods called), ranked by
     content, so the selection does not depend on TLC's dump order and no stratum is left without a representative"""
     if every <= 1:
         return list(range(len(allitems)))
     strata = {}
     for idx, (hist, dev, board, _st) in enumerate(allitems):
         key = repr((sorted(board.items()) if isinstance(board, dict) else board, [(h["m"], list(h["a"]), h["s"], repr(h["env"])) for h in hist]))
-        strata.setdefault((dev, tuple(h["m"] for h in hist)), []).append((key, idx))
+        strata.setdefault((dev, tuple(h["m"] for h in hist)[:2]), []).append((key, idx))
     chosen = []
     for members in strata.values():
         members.sort()
@@ -54,14 +54,19 @@ def g_scripts(ctx, focus, name, cfg, ncalls, start_connected, cap=None, every=1)
     dump = os.path.join(ctx.workdir, name, "states")
     ctx.run_tlc(name, "EBB3LinkMC", cfg, dump=dump)
     items, events, drifts = [], [], 0
+    conn_model = conn_real = 0
     allitems = [(hist, dev, board, None) for hist, dev, board, _st in L.scripts_from_dump(dump + ".dump", ncalls)]
     n = len(allitems)
-    strata = len({(dev, tuple(h["m"] for h in hist)) for hist, dev, _b, _s in allitems})
+    strata = len({(dev, tuple(h["m"] for h in hist)[:2]) for hist, dev, _b, _s in allitems})
     for k, idx in enumerate(select_scripts(allitems, every, ctx.seed)):
         if cap and len(items) >= cap:
             break
         hist, dev, board, _st = allitems[idx]
-        calls, drift = L.run_script(hist, dev, board, start_connected)
+        calls, drift = L.run_script(hist, dev, board, start_connected, wsoff=k + ctx.seed)
+        for h, c in zip([x for x in hist if x["m"] != "<replug>"], calls):
+            if h["m"] == "connect" and h["obs"] and list(h["obs"][0]["ret"]) == ["bool", True]:
+                conn_model += 1
+                conn_real += c["ret"] == ["bool", True]
         script = [[h["m"], list(h["a"]), h["s"], [dict((k2, v) for k2, v in e.items() if k2 != "r") for e in h["env"]]] for h in hist]      # incl. <replug> entries
         ctx.count((focus, repr(script), dev))
         items.append((calls, dev, board, script))
@@ -72,12 +77,16 @@ def g_scripts(ctx, focus, name, cfg, ncalls, start_connected, cap=None, every=1)
         if k % 997 == 1:
             ctx.sample({"mode": "G", "script": script, "device": dev, "observed": [[c["m"], c["ret"], c["err_set"], [o["t"] for o in c["ops"] if o["k"] == "w"]] for c in calls]})
     del allitems
+    if conn_model >= 5 and conn_real == 0:
+        # every connect the model expects to succeed failed on the real object: the stubbed serial.Serial / comports no longer intercept
+        # (e.g. the layer now imports them under another name) and every connect history would pass vacuously
+        raise vlib.MachineryError("%s: none of %d connects the model expects to succeed did - the harness stubs do not reach the code under test" % (name, conn_model))
     os.remove(dump + ".dump")
     vs = L.judge(ctx, name + ".judge", events)
     rej, skipped = L.report(ctx, focus, "G", items, vs, None)
     ctx.skipped += skipped
     ctx.traces += len(items)
-    ctx.stage(name + ".G", kind="spec->code->spec", complete_histories_in_model=n, strata=strata, every=every, executed=len(items), rejected=rej, drifted=drifts, skipped=skipped)
+    ctx.stage(name + ".G", kind="spec->code->spec", complete_histories_in_model=n, strata=strata, every=every, connects_expected_to_succeed=conn_model, of_which_succeeded=conn_real, executed=len(items), rejected=rej, drifted=drifts, skipped=skipped)
     return n
 
 
